@@ -12,8 +12,11 @@ ASSUME = [
     'the compiled engine (cythonbiogeme, C++) is external: its operator semantics are modelled by evalX '
     '(rocq/Model/EvalX.v) and tied by differential runs only',
     'IEEE rounding inside the engine / numpy is covered by the relative tolerance 2^-30 of the membership test, not modelled',
-    'normal CDF: the interval extension PhiI_series (rocq/Model/PhiI.v: Taylor series with geometric tail bound) is TRUSTED to enclose Phi '
-    '(hypothesis PhiI_correct of the soundness theorem; cross-checked against scipy on a grid), not proved',
+    'normal CDF: Phi is DEFINED as Phi_def x = 1/2 + RInt npdf 0 x, npdf t = exp(-t^2/2)/sqrt(2 pi) (rocq/Model/PhiDef.v, Coquelicot '
+    'Riemann integral); the interval extension PhiI_series (rocq/Model/PhiI.v: Taylor series with geometric tail bound) is PROVED to '
+    'enclose it (theorem T01f_PhiI_series_correct, rocq/Proofs/PhiP.v), which discharges the hypothesis PhiI_correct of the soundness '
+    'theorem (T01f_evalI_sound_concrete); what remains assumed is only that the engine/scipy "normal CDF" means this function '
+    '(cross-checked against scipy on a grid); 0 <= Phi_def <= 1 is not proved (no Gaussian integral), so the enclosures are not clipped to [0,1]',
 ]
 
 
@@ -361,7 +364,8 @@ def stream_dsl(ctx):
 
 def stream_phi_grid(ctx):
     st = ctx.stream('phi_grid', 'dyadic grid on [-9, 9]: scipy norm.cdf and the engine\'s bioNormalCdf vs the interval extension '
-                    'PhiI_series (cross-check of a TRUSTED component); non-trivial = |x| > 1/8; distinct by x')
+                    'PhiI_series (proved to enclose Phi_def x = 1/2 + RInt npdf 0 x: T01f_PhiI_series_correct; the grid ties scipy/the engine to '
+                    'that function); non-trivial = |x| > 1/8; distinct by x')
     rng = ctx.sub_rng('phi')
     xs = [[m, -3] for m in range(-72, 73, 3)] + [[rng.randint(-4000, 4000), -9] for _ in range(ctx.n(40, 400))]
     ref = ctx.impl('c01_phi.py', {'xs': xs})
@@ -386,7 +390,7 @@ def stream_phi_grid(ctx):
                 ctx.violation('C01/known/normalcdf-upper-tail-above-one' if above else 'C01/value/engine/NormalCdf',
                               'bioNormalCdf is outside the enclosure of Phi', {'x': x, 'value': xv}, info, None)
     if any(d['case']['who'] == 'scipy' for d in st.disagreements):
-        ctx.stream_broken('phi_grid', 'the trusted interval extension of Phi disagrees with scipy: ' + str(st.disagreements[0])[:300])
+        ctx.stream_broken('phi_grid', 'the proved interval extension of Phi_def disagrees with scipy: ' + str(st.disagreements[0])[:300])
 
 
 def norm_dy(x):
